@@ -229,6 +229,9 @@ Proof.
   apply rspec_of_forall. exact (proj1 (list_sigs_bounded q reqs res E)).
 Qed.
 
+Theorem registry_spec_ok qf ql : rspec_ok (fetch_sig qf) = true /\ rspec_ok (list_sigs ql) = true.
+Proof. exact (conj (fetch_sig_spec_ok qf) (list_sigs_spec_ok ql)). Qed.
+
 Theorem rspec_ok_sound o : rspec_ok o = true ->
   o <> RPanic /\ forall reqs res, o = RO reqs res -> Forall within_cap reqs.
 Proof.
